@@ -6,6 +6,21 @@ package main
 // Sync() and a completed Defrag(true) — whatever the store reports about itself — and, in addition, any moment at
 // which the store itself reports no pending records (#PendingRecords = 0 after a call returned: an automatic sync
 // has happened, and the store is held to it).
+//
+// Browsing flags (NO_BROWSE is observable through Browse). The reference keeps TWO views of every key's NO_BROWSE bit:
+//   mnb  what an in-memory map with flags holds: set by PutExt / ApplyFlags / walk answers, never touched by sync, defrag,
+//        Close or NewDBExt — the property's first sentence;
+//   nb   what the real store is held to. Inside one session nb = mnb. Across Close + NewDBExt the UNCHANGED store
+//        differs from the map (known finding flag-change-not-durable: ApplyFlags / a walk answer / Get change the flag word
+//        in memory only and do not mark the record pending), so nb follows this independent rule instead:
+//            flag word after NewDBExt = flag word at the record's LAST PERSIST,
+//        where a record is persisted (pnb := nb) when it is written to the index log — a sync while the key is pending:
+//        the store reports pe=0 after the request, or the request is Close — or when a new index snapshot is written
+//        (any defrag: the qdbidx.0 / qdbidx.1 file of the directory listing changes), which persists EVERY record.
+//        The rule reads only the request text, the store's own pending count and the directory listing — not the model.
+// A Browse result that breaks the rule is a violation (prop:browse). A result that obeys the rule but differs from the
+// map view is classified to the known finding — only when every differing key is one whose two views parted at a
+// NewDBExt (dev); any other difference from the map is a violation.
 
 import (
 	"fmt"
@@ -18,7 +33,13 @@ import (
 
 type refT struct {
 	m     map[uint64][]byte
-	nb    map[uint64]int      // NO_BROWSE bit of a key: 0 clear, 1 set, 2 unknown (flags are only persisted by sync/defrag)
+	nb    map[uint64]int      // NO_BROWSE bit the real store is held to: 0 clear, 1 set, 2 unknown (after a crash)
+	mnb   map[uint64]int      // NO_BROWSE bit of the in-memory map with flags (the property's first sentence)
+	pnb   map[uint64]int      // NO_BROWSE bit at the record's last persist (index-log entry or index snapshot)
+	pend  map[uint64]bool     // keys written since their last persist
+	dev   map[uint64]bool     // keys whose nb and mnb parted at a NewDBExt (flag change that was never persisted)
+	inexact bool              // between a crash and the NewDBExt that follows it: m is not the store's map
+	known string              // set by check: the result obeys the persist rule but differs from the map (known finding)
 	dur   map[uint64]string   // value signature per key at the last sync point ("" = absent)
 	hist  map[uint64][]string // signatures written since the last sync point (incl. "" for a delete)
 	vol   bool
@@ -32,10 +53,10 @@ type refT struct {
 }
 
 func (f *refT) save()    { f.savedDur, f.savedHist = f.dur, f.hist }
-func (f *refT) restore() { f.dur, f.hist = f.savedDur, f.savedHist }
+func (f *refT) restore() { f.dur, f.hist = f.savedDur, f.savedHist; f.inexact = true }
 
 func newRef() *refT {
-	return &refT{m: map[uint64][]byte{}, nb: map[uint64]int{}, dur: map[uint64]string{}, hist: map[uint64][]string{}, byts: map[string][]byte{}}
+	return &refT{m: map[uint64][]byte{}, nb: map[uint64]int{}, mnb: map[uint64]int{}, pnb: map[uint64]int{}, pend: map[uint64]bool{}, dev: map[uint64]bool{}, dur: map[uint64]string{}, hist: map[uint64][]string{}, byts: map[string][]byte{}}
 }
 
 func sig(v []byte) string { return fmt.Sprintf("%d.%d", len(v), fnv(v)) }
@@ -54,8 +75,18 @@ func (f *refT) before(t []string) {
 	case "open":
 		f.vol = t[1] == "1"
 		f.open = true
+		// the independent rule: a record comes up with the flag word of its last persist; the map keeps its own
 		for k := range f.m {
-			f.nb[k] = 2
+			p, ok := f.pnb[k]
+			if !ok {
+				p = 2
+			}
+			f.nb[k] = p
+			if p == 2 {
+				f.mnb[k] = 2 // persisted flag word not known (crash since the last persist): the difference is not judged
+			} else if f.mnb[k] != 2 && p != f.mnb[k] {
+				f.dev[k] = true
+			}
 		}
 	case "put", "putext":
 		k, v := pkey(t[1]), pval(t[2])
@@ -65,21 +96,30 @@ func (f *refT) before(t []string) {
 			fl, _ := strconv.ParseUint(t[3], 10, 32)
 			f.nb[k] = int(fl & 1)
 		}
+		f.mnb[k] = f.nb[k]
+		f.pend[k] = true
+		delete(f.dev, k)
 		f.hist[k] = append(f.hist[k], sig(v))
 		f.byts[sig(v)] = v
 	case "del":
 		k := pkey(t[1])
 		delete(f.m, k)
 		delete(f.nb, k)
+		delete(f.mnb, k)
+		delete(f.dev, k)
+		f.pend[k] = true
 		f.hist[k] = append(f.hist[k], "")
 	case "flags":
 		k := pkey(t[1])
 		fl, _ := strconv.ParseUint(t[2], 10, 32)
 		if _, ok := f.m[k]; ok {
 			if fl&1 != 0 {
-				f.nb[k] = 1
+				f.nb[k], f.mnb[k] = 1, 1
 			} else if fl&16 != 0 {
-				f.nb[k] = 0
+				f.nb[k], f.mnb[k] = 0, 0
+			}
+			if f.nb[k] == f.mnb[k] {
+				delete(f.dev, k)
 			}
 		}
 	}
@@ -122,6 +162,7 @@ func renderKV(m map[uint64]string) string {
 
 // check compares the real result of a request with the Go map. "" = fine.
 func (f *refT) check(t []string, res string) string {
+	f.known = ""
 	switch t[0] {
 	case "get":
 		k := pkey(t[1])
@@ -196,9 +237,32 @@ func (f *refT) check(t []string, res string) string {
 				}
 			}
 		}
+		// the result obeys the store's rule. Does it also equal what the in-memory map with flags shows?
+		if !all {
+			var diff []string
+			for k := range f.m {
+				_, in := got[k]
+				switch {
+				case in && f.mnb[k] == 1:
+					diff = append(diff, fmt.Sprintf("key %d is shown although the map's flag word says NO_BROWSE (set by ApplyFlags / a walk answer and never persisted; after NewDBExt the record carries the flag word of its last sync / defrag)", k))
+				case !in && !aborted && f.mnb[k] == 0:
+					diff = append(diff, fmt.Sprintf("key %d is hidden although the map's flag word does not say NO_BROWSE (cleared by ApplyFlags / a walk answer and never persisted)", k))
+				default:
+					continue
+				}
+				if !f.dev[k] {
+					return fmt.Sprintf("Browse differs from the in-memory map on key %d (map NO_BROWSE=%d) and no unpersisted flag change explains it", k, f.mnb[k])
+				}
+			}
+			if len(diff) > 0 {
+				sort.Strings(diff)
+				f.known = diff[0]
+			}
+		}
+		blind := aborted && len(f.dev) > 0 // the map's own browse would have visited other records: its order is not known
 		for k := range f.m {
+			fl := walk[k]
 			if _, in := got[k]; in {
-				fl := walk[k]
 				if fl&1 != 0 {
 					f.nb[k] = 1
 				} else if fl&16 != 0 || !all {
@@ -206,6 +270,31 @@ func (f *refT) check(t []string, res string) string {
 				}
 			} else if !aborted && !all {
 				f.nb[k] = 1 // Browse went through the whole index and did not show it
+			}
+			// the map's view: its Browse visits k when its own bit is clear (BrowseAll: always) and no abort came first
+			switch {
+			case blind || f.mnb[k] == 2:
+				f.mnb[k] = 2
+			case aborted:
+				if _, in := got[k]; in { // (views agree on every key here: the map visited exactly these records)
+					if fl&1 != 0 {
+						f.mnb[k] = 1
+					} else if fl&16 != 0 {
+						f.mnb[k] = 0
+					}
+				}
+			case all || f.mnb[k] == 0:
+				if fl&1 != 0 {
+					f.mnb[k] = 1
+				} else if fl&16 != 0 {
+					f.mnb[k] = 0
+				}
+			}
+			if f.mnb[k] == 2 {
+				f.mnb[k] = f.nb[k] // unknown (after a crash the map adopts the recovered store, flag words included)
+			}
+			if f.mnb[k] == f.nb[k] {
+				delete(f.dev, k)
 			}
 		}
 	case "defrag":
@@ -229,6 +318,45 @@ func (f *refT) syncPoint() {
 		f.dur[k] = sig(v)
 	}
 	f.hist = map[uint64][]string{}
+}
+
+// snapshotFiles: which of qdbidx.0 / qdbidx.1 a directory listing holds
+func snapshotFiles(listing string) string {
+	out := ""
+	for _, n := range []string{"qdbidx.0:", "qdbidx.1:"} {
+		if strings.Contains(listing, n) {
+			out += n
+		}
+	}
+	return out
+}
+
+// persist: the independent rule for flag words (see the head of this file). listing0 / listing1: the directory before and
+// after the request.
+func (f *refT) persist(t []string, state, listing0, listing1 string) {
+	if t[0] == "open" || t[0] == "get" || t[0] == "browse" || t[0] == "browseall" || t[0] == "peek" || t[0] == "count" {
+		return // NewDBExt only removes files; reads perform no file operation
+	}
+	if snapshotFiles(listing0) != snapshotFiles(listing1) {
+		// a new index snapshot was written (defrag alternates between the two files): it describes every record
+		for k := range f.m {
+			f.pnb[k] = f.nb[k]
+		}
+		f.pend = map[uint64]bool{}
+		return
+	}
+	if f.vol {
+		return // a volatile store writes nothing but the snapshot of its Close
+	}
+	if t[0] == "close" || strings.Contains(state, " pe=0 ") {
+		// a sync has written an index-log entry for every pending key
+		for k := range f.pend {
+			if _, ok := f.m[k]; ok {
+				f.pnb[k] = f.nb[k]
+			}
+		}
+		f.pend = map[uint64]bool{}
+	}
 }
 
 // after: advance the sync point when the request made everything durable.
@@ -287,6 +415,34 @@ func (f *refT) durable(rec string) string {
 	return ""
 }
 
+// allOrNothing: the theorems' claim that is stronger than the property sentence (qdb_durable: "ALL keys hold the durable
+// map from before the interrupted operation or ALL keys hold the complete map after it"), judged on a recovered crash
+// directory of the request being executed: f.dur is the durable map before the request (exact: every sync point of the
+// store is one of the reference), f.m the in-memory map after it. "" = fine.
+func (f *refT) allOrNothing(rec string) string {
+	if f.inexact || !strings.HasPrefix(rec, "ok:") {
+		return ""
+	}
+	got, ok := parseKV(rec[3:])
+	if !ok {
+		return ""
+	}
+	old := map[uint64]string{}
+	for k, s := range f.dur {
+		if s != "" {
+			old[k] = s
+		}
+	}
+	now := map[uint64]string{}
+	for k, v := range f.m {
+		now[k] = sig(v)
+	}
+	if g := renderKV(got); g == renderKV(old) || g == renderKV(now) {
+		return ""
+	}
+	return fmt.Sprintf("recovered {%s} is neither the durable map from before the request {%s} nor the complete map after it {%s}: a mixture", short(renderKV(got)), short(renderKV(old)), short(renderKV(now)))
+}
+
 // adopt: the process died and the store was reopened with content rec ("ok:k=sig,…", already checked by durable):
 // the history continues from there — that content is the map, and it is durable.
 func (f *refT) adopt(rec string) string {
@@ -296,15 +452,17 @@ func (f *refT) adopt(rec string) string {
 	}
 	f.m = map[uint64][]byte{}
 	f.nb = map[uint64]int{}
+	f.mnb, f.pnb, f.pend, f.dev = map[uint64]int{}, map[uint64]int{}, map[uint64]bool{}, map[uint64]bool{}
 	for k, s := range got {
 		v, known := f.byts[s]
 		if !known {
 			return fmt.Sprintf("key %d holds %s after recovery, a value that was never written", k, s)
 		}
 		f.m[k] = v
-		f.nb[k] = 2
+		f.nb[k], f.mnb[k], f.pnb[k] = 2, 2, 2 // which flag words reached the directory before the process died is not judged
 	}
 	f.syncPoint()
+	f.inexact = false
 	return ""
 }
 
